@@ -22,3 +22,32 @@ package omniwitness
 //@               && logMap[ID(logs[j].Origin)].SigV == verifierFor(logs[j].PublicKey) && verifierOK(logs[j].PublicKey)
 //@   invariant#1 forall a int, b int :: 0 <= a && a < b && b < $i ==> ID(logs[a].Origin) != ID(logs[b].Origin)
 //@   decreases#1 len(logs) - $i
+
+// witnessAdapter: the interface contracts of feeder.Witness (in /verif/contracts/50_witness_iface.spec) are
+// proved here from the proved contracts of (*Witness).Update / GetCheckpoint. The preconditions are the
+// configuration of the one witness behind the adapter (store, published verifier, origins) and the
+// representation invariant of the store; omniwitness.Main establishing them is read, not verified.
+//@ func (witnessAdapter).Update
+//@   refines (feeder.Witness).Update
+//@   returns (out, err)
+//@   let W     := w.w
+//@   let known := logID in W.Logs
+//@   let L     := W.Logs[logID]
+//@   requires W != nil && W.lsp != nil && W.lsp == theStore()
+//@   requires witness.counterUpdateAttempt != nil && witness.counterUpdateSuccess != nil && witness.counterInvalidConsistency != nil && witness.counterInconsistentCheckpoints != nil
+//@   requires witness.counterUpdateAttempt != witness.counterUpdateSuccess && witness.counterUpdateAttempt != witness.counterInvalidConsistency && witness.counterUpdateAttempt != witness.counterInconsistentCheckpoints
+//@   requires witness.counterUpdateSuccess != witness.counterInvalidConsistency && witness.counterUpdateSuccess != witness.counterInconsistentCheckpoints && witness.counterInvalidConsistency != witness.counterInconsistentCheckpoints
+//@   requires known ==> !signerKey(W.Signers, L.SigV) && L.Origin == originFor(logID) && L.SigV == logVFor(logID)
+//@   requires signerFor(W.Signers, witV())
+//@   requires st_has[theStore()][logID] && known ==> parsesAs(st_val[theStore()][logID], L.Origin, witV())
+//@   modifies n_wo, wo_err, wo_h, n_gl, gl_err, gl_val, gl_h, n_set, set_err, set_arg, set_h, n_close, close_h, n_commit
+//@   modifies n_sign, sign_err, sign_out, sign_n, st_has, st_val, cnt
+//@   ensures[C10.a,C12.a,C13.a] true
+
+//@ func (witnessAdapter).GetLatestCheckpoint
+//@   refines (feeder.Witness).GetLatestCheckpoint
+//@   returns (out, err)
+//@   requires w.w != nil && w.w.lsp != nil && w.w.lsp == theStore()
+//@   modifies n_ro, ro_err, n_gl, gl_err, gl_val, gl_h
+//@   // "no checkpoint yet" is reported as os.ErrNotExist exactly when the store said NotFound
+//@   ensures[C13.g,C16.a] !st_has[theStore()][logID] && !(n_ro == old(n_ro) + 1 && ro_err != nil) && !(n_gl == old(n_gl) + 1 && gl_err != nil && code(gl_err) != NotFound) ==> err == os.ErrNotExist
